@@ -141,7 +141,7 @@ def cases(ctx):
 
 
 def evidence_extra(ctx):
-    return {'bounds': 'vector length 0..5 exhaustively over a 6-value alphabet (462 ranked multisets) x 3 n_data x 2; '
+    return {'bounds': 'vector length 0..5 exhaustively over a 6-value alphabet (462 ranked multisets) x 3 n_data x 2 (+ n_data = 0 for length <= 4); '
                       '%d seed-derived vectors of length 6..12; rankings of 300 and 700 (thorough: up to 5000) fits with cuts around positions 127/128, 255/256 and the tail; %d unsorted vectors through sort(); 31 selectors; BFS to '
                       'fixpoint; all 961 selector pairs from every reachable state of vectors up to length %d'
                       % (len(ctx['longer']), len(ctx['unsorted']), ctx['pairs_lmax']),
